@@ -34,6 +34,10 @@ ASSUMPTIONS = ["all text is printable ASCII",
                "a name-less record is tagged C03-nameless-locus only when everything else is as predicted: with a length the strict reader must "
                "return exactly the predicted record (name = the length); without one it must reject the text and accept it with the predicted LOCUS line",
                "an `img` / `img01` text on which genbank.Parse does not return although the parser model (C01) and parseLocation (C02) read it is a FAIL",
+               "Write/Read is a history on ONE path: a longer record is written first, then the record under test; the file must equal Build(x), "
+               "Read and ReadMulti must return the record, and a fresh path must get the same bytes. ReadMulti is compared only when no inner line "
+               "of the text ends in `//` (ParseMulti cuts after such lines: property C01's noSlashEnd). io/genbank has one writer (Write) and the "
+               "readers Read / ReadMulti of what it writes; ReadFlat / ReadFlatGz read NCBI dumps with a 10-line header that no exported writer produces",
                "SequenceCoding is compared only when the record says `bp` and has a length: Build writes the constant ` bp` and has no parameter for another unit",
                "EXCLUDED from 'every generated structured record', each a decidable conjunct of wfLayoutJ / wfSeqJ (Spec/GbStrict.lean) with its reason: "
                "a blank at either END of a metadata value (the keyword line cannot delimit it; genbank.Parse trims, so the parser's image has none); "
